@@ -694,7 +694,8 @@ def _oracle(w, st, sim, outcome, policy, out_fs, procs, queues):
     fset = set(found)
     dups = len(found) - len(fset)
     if dups:
-        d = sorted(p for p in fset if found.count(p) > 1)[:5]
+        from collections import Counter
+        d = sorted(p for p, c in Counter(found).items() if c > 1)[:5]
         V.append(_viol("C05/duplicate-pairs",
                        f"{dups} pair(s) reported more than once, e.g. {d}"))
     extra = fset - exp - border
